@@ -1840,6 +1840,28 @@ class LeCreditBasedChannel(utils.EventEmitter):
             )
             return
 
+        if self.connection_result.done():
+            # The caller of connect() gave up (it was cancelled): nobody is waiting for
+            # this channel any more. If the peer has opened it, close it again.
+            self.connection_result = None
+            if (
+                response.result
+                == L2CAP_LE_Credit_Based_Connection_Response.Result.CONNECTION_SUCCESSFUL
+            ):
+                self.destination_cid = response.destination_cid
+                self._change_state(self.State.DISCONNECTING)
+                self.send_control_frame(
+                    L2CAP_Disconnection_Request(
+                        identifier=self.manager.next_identifier(self.connection),
+                        destination_cid=self.destination_cid,
+                        source_cid=self.source_cid,
+                    )
+                )
+            else:
+                self._change_state(self.State.CONNECTION_ERROR)
+                self.manager.on_channel_closed(self)
+            return
+
         if (
             response.result
             == L2CAP_LE_Credit_Based_Connection_Response.Result.CONNECTION_SUCCESSFUL
